@@ -251,6 +251,12 @@ def run(r):
         results = run_conc(h4, cases, seeds, tmp)
     finally:
         shutil.rmtree(tmp, ignore_errors=True)
+    # the parallel workspace scan itself, on real trees: no record of any file duplicated (shared with C14)
+    import C14
+    ndup, dup_bad = C14.scan_duplicates([r.seed * 1000 + 9 + k for k in range(24 if quick else 150)])
+    for k, b in enumerate(dup_bad[:2]):
+        r.violation(dict({"property": PID, "part": "scan-duplicates", "seed": r.seed}, **b), "dup_%d" % k)
+    r.notes.append("scan part: %d freshly scanned trees (parallel scan_workspace) checked for records held twice (%d with duplicates)" % (ndup, len(dup_bad)))
     fails = [x for x in results if x[2]]
     for k, (c, seed, why, detail) in enumerate(sorted(fails, key=lambda x: sum(len(t) for t in x[0]["threads"]))[:3]):
         r.violation({"property": PID, "why": "after concurrent analyses of distinct files (real threads, chaos seed %d): %s" % (seed, why),
